@@ -403,6 +403,9 @@ class Sym:
     def __hash__(self):
         return id(self)
 
+    def __format__(self, spec):
+        return "<sym>"
+
     # -- python protocol
     def __bool__(self):
         if self.is_bool:
@@ -1366,6 +1369,34 @@ def sum_match_axioms(terms, hyps, budget_ms=400):
     return ax, used
 
 
+def _int_consts(t, acc, seen):
+    k = t.get_id()
+    if k in seen:
+        return
+    seen.add(k)
+    if z3.is_const(t) and t.sort() == _I and t.decl().kind() == z3.Z3_OP_UNINTERPRETED:
+        acc[t.sexpr()] = t
+    if z3.is_quantifier(t):
+        return
+    for c in t.children():
+        _int_consts(c, acc, seen)
+
+
+def instantiate_foralls(hyps, goal, limit=8):
+    """explicit instantiation of the single-variable integer quantifiers among the hypotheses
+    (range facts of inputs, argmax/argmin/searchsorted contracts) at the integer constants the goal
+    mentions; the instances are consequences of the hypotheses, so adding them is sound"""
+    consts = {}
+    _int_consts(goal, consts, set())
+    cands = list(consts.values())[:limit]
+    out = []
+    for h in hyps:
+        if z3.is_quantifier(h) and h.is_forall() and h.num_vars() == 1 and h.var_sort(0) == _I:
+            for c in cands:
+                out.append(z3.substitute_vars(h.body(), c))
+    return out
+
+
 def _z3_check(forms, goal, timeout_ms):
     s = z3.Solver()
     s.set("timeout", int(timeout_ms))
@@ -1407,8 +1438,10 @@ def prove(hyps, goal, timeout_ms=20000, extra_axioms=(), nonneg=True, use_cvc5=N
         model = s.model() if r == z3.sat else None
     if r == z3.sat:
         return "refuted", "z3", time.time() - t0, model, lem_used
-    # stage 3: quantifier-free purified attempt (nonlinear real arithmetic)
-    if prove_qf(allf + fax, goal, min(10000 * scale, timeout_ms)):
+    # stage 3: quantifier-free purified attempt (nonlinear real arithmetic), with the integer
+    # quantifiers of the hypotheses instantiated at the indices the goal mentions
+    inst = instantiate_foralls(allf, goal)
+    if prove_qf(allf + inst + fax + fn_axioms(inst), goal, min(10000 * scale, timeout_ms)):
         return "proved", "z3-qf", time.time() - t0, None, lem_used
     # stage 4: plain, long
     r, s = _z3_check(allf + fax, goal, timeout_ms)
